@@ -605,13 +605,19 @@ func init() {
 			}
 			return one(st, TV{SBool, st.fresh("deepeq", SBool)})
 		})
-	ext("encoding/pem.Decode", "pem.Decode(data): either (nil, data) or a block whose Bytes are no longer than data; never panics",
+	ext("encoding/pem.Decode", "pem.Decode(data): (nil, data) when data holds no PEM block (pemok false), otherwise a block whose Bytes = pemdecode(data) are no longer than data; both are functions of data only; never panics",
 		func(x *Exec, st *State, fr *Frame, cc *ssa.CallCommon, args []Val, instr ssa.Instruction) []Outcome {
 			_, in := x.seqOf(st, args[0], cc.Args[0].Type())
 			bt := cc.Signature().Results().At(0).Type()
 			pt := bt.Underlying().(*types.Pointer).Elem()
 			sort := x.w.SortOf(pt)
+			// whether the input holds a PEM block, and which bytes it carries, are
+			// (uninterpreted) functions of the input
+			x.w.Decl("(declare-fun g_pemdecode (" + SSeqI + ") " + SSeqI + ")")
+			x.w.Decl("(declare-fun g_pemok (" + SSeqI + ") Bool)")
 			none := st.fork()
+			none.assume(tNot(app("g_pemok", in)))
+			st.assume(app("g_pemok", in))
 			blk := x.symVal(st, "pemblock", bt).(PtrV)
 			st.assume(tNot(tEq(blk.Ref, "0")))
 			if d := x.w.DTByName(sort); d != nil {
@@ -619,7 +625,6 @@ func init() {
 					by := d.Get(i, st.heapSelect(sort, blk.Ref))
 					st.assume(tCmp("<=", sLen(SSeqI, by), sLen(SSeqI, in)))
 					st.assume(app("g_isbytes", by))
-					x.w.Decl("(declare-fun g_pemdecode (" + SSeqI + ") " + SSeqI + ")")
 					st.assume(tEq(by, app("g_pemdecode", in)))
 				}
 			}
